@@ -4,8 +4,16 @@ C13 specification of a data request, written from the property text:
   object iff the attribute (a dotted path through the message's dictionaries) exists and the comparison holds; one
   or two statements joined by and/or — in store order, then stably sorted by the order attributes, each with its own
   direction.
-The comparison operators themselves (`evalOp`: Python ==, !=, <, <=, >, >=, containment) are shared with the
-implementation model; a comparison Python cannot evaluate (values of non-matching type) is not true.
+
+The comparisons are specified HERE, independently of the implementation model (`evalOp` in Filter.lean), for the
+scalar value classes the messages are made of — nothing (None), numbers (int, bool), texts, octet strings:
+  ==  same class and same value;  !=  its negation;  <, >  the order of the class, false across classes;
+  <=, >=  "not greater" / "not less" within an ordered class, false across classes;
+  like  the value is a text in which the text of the reference value occurs (`List.IsInfix`);  notlike  its negation.
+For compound values (list, tuple, dictionary) on either side the specification defers to Python's structural ==,
+lexicographic order and membership as modelled in Filter.lean (`compoundHolds`; shared, cross-checked against native
+Python by the correspondence).  `QueryLemmas.opHolds_agrees` proves that the implementation model's operator table
+computes exactly this.
 -/
 import FlexModel.Ldm.Filter
 
@@ -21,10 +29,66 @@ def lookupPath : JVal → List String → Option JVal
     | none => none
   | _, _ :: _ => none
 
-def opHolds (op : CmpOp) (v ref : JVal) : Bool :=
+/-! ### comparisons on scalar values (independent of the implementation model) -/
+
+/-- the scalar value classes -/
+inductive Scalar where
+  | nothing
+  | num (i : Int)
+  | text (s : String)
+  | octets (hex : String)
+  deriving DecidableEq, Inhabited
+
+/-- a scalar value's class; Python's bool is a number (`True == 1`) -/
+def scalar? : JVal → Option Scalar
+  | .null => some .nothing
+  | .bool b => some (.num (if b then 1 else 0))
+  | .int i => some (.num i)
+  | .str s => some (.text s)
+  | .bytes h => some (.octets h)
+  | _ => none
+
+/-- equal: same class, same value -/
+def sEq : Scalar → Scalar → Bool
+  | .nothing, .nothing => true
+  | .num a, .num b => decide (a = b)
+  | .text a, .text b => decide (a = b)
+  | .octets a, .octets b => decide (a = b)
+  | _, _ => false
+
+/-- strictly less, defined within one ordered class (numbers, texts, octet strings) -/
+def sLt : Scalar → Scalar → Option Bool
+  | .num a, .num b => some (decide (a < b))
+  | .text a, .text b => some (decide (a < b))
+  | .octets a, .octets b => some (decide (a < b))
+  | _, _ => none
+
+/-- `needle` occurs in `hay` as a contiguous piece -/
+def occursIn (needle hay : String) : Bool := decide (needle.toList <:+: hay.toList)
+
+/-- a comparison between two scalars; `needle` is the text of the reference value -/
+def sHolds (op : CmpOp) (a b : Scalar) (needle : String) : Bool :=
+  match op with
+  | .eq => sEq a b
+  | .ne => !sEq a b
+  | .lt => sLt a b == some true
+  | .gt => sLt b a == some true
+  | .le => sLt b a == some false
+  | .ge => sLt a b == some false
+  | .like => (match a with | .text s => occursIn needle s | _ => false)
+  | .notlike => (match a with | .text s => !occursIn needle s | _ => true)
+
+/-- compound values: Python's structural semantics as modelled in Filter.lean; a comparison Python cannot evaluate
+(values of non-matching type) is not true -/
+def compoundHolds (op : CmpOp) (v ref : JVal) : Bool :=
   match evalOp op v ref with
   | .ok b => b
   | .error _ => false
+
+def opHolds (op : CmpOp) (v ref : JVal) : Bool :=
+  match scalar? v, scalar? ref with
+  | some a, some b => sHolds op a b (pyStr ref)
+  | _, _ => compoundHolds op v ref
 
 /-- a statement holds of a message; an object lacking the attribute simply does not match -/
 def holds (s : Stmt) (obj : JVal) : Bool :=
@@ -42,9 +106,14 @@ def matchesFilter (f : Filter) (obj : JVal) : Bool :=
   | some s2, some .or => holds f.s1 obj || holds s2 obj
   | some _, none => false          -- not a filter the property speaks about (excluded by `WFFilter`)
 
+/-- the object is of one of the requested types: its type is the identifier of the first top-level key of the
+message that names a data object type (`objType`, Record.lean) -/
+def ofRequestedType (types : List Nat) (r : Record) : Bool :=
+  (objType r.obj).any (fun t => decide (t ∈ types))
+
 /-- is the record selected by the request? -/
 def selected (types : List Nat) (f : Option Filter) (r : Record) : Bool :=
-  typeSelected types r && (match f with | none => true | some f => matchesFilter f r.obj)
+  ofRequestedType types r && (match f with | none => true | some f => matchesFilter f r.obj)
 
 /-- the selection, in store order -/
 def select (rows : List Record) (types : List Nat) (f : Option Filter) : List Record :=
